@@ -176,6 +176,16 @@ def liftV (s : Store) (r : Outcome VCell) : Res := do .ok (s, ← r)
 def cmpOps : List (String × CmpOp) :=
   [("=?", .eq), ("<?", .lt), (">?", .gt), ("<=?", .le), (">=?", .ge)]
 
+/-- `tableOf` below maps a character that has no oracle entry to U+FFFD followed by itself (no image of
+    `char::to_lowercase` looks like that) -/
+def missingEntry (T : CaseTable) (c : Char) : Bool := T.lower c == [Char.ofNat 0xFFFD, c]
+
+/-- `string-downcase` = `str::to_lowercase` (`strLowerCtx`, Final_Sigma rule). The context bits of a
+    character without an oracle entry are unknown: then the per-character images are returned, which
+    show U+FFFD at that character - a visible disagreement, never a silent default. -/
+def downcaseChecked (T : CaseTable) (t : Text) : Text :=
+  if t.any (missingEntry T) then strLower T t else strLowerCtx T t
+
 def runModelBase (T : CaseTable) (s : Store) (name : String) (args : List VCell) : Option Res :=
   let fuel := fuelOf s
   if name.startsWith "string-ci" then
@@ -202,7 +212,7 @@ def runModelBase (T : CaseTable) (s : Store) (name : String) (args : List VCell)
   | "make-string" => some (makeString s args)
   | "string-append" => some (stringAppend s args)
   | "string-upcase" => some (stringCase (strUpper T) s args)
-  | "string-downcase" => some (stringCase (strLower T) s args)
+  | "string-downcase" => some (stringCase (downcaseChecked T) s args)
   | "string-foldcase" => some (stringCase (strLower T) s args)
   | "char->integer" => some (charToInteger s args)
   | "integer->char" => some (integerToChar s args)
@@ -290,7 +300,7 @@ def runSpecBase (T : CaseTable) (st : RStore) (name : String) (args : List RVal)
   | "make-string" => some (rMakeString st args)
   | "string-append" => some (rStringAppend st args)
   | "string-upcase" => some (rStringCase (strUpper T) st args)
-  | "string-downcase" => some (rStringCase (strLower T) st args)
+  | "string-downcase" => some (rStringCase (downcaseChecked T) st args)
   | "string-foldcase" => some (rStringCase (strLower T) st args)
   | "char->integer" => some (rCharToInteger st args)
   | "integer->char" => some (rIntegerToChar st args)
@@ -357,7 +367,12 @@ def specMachine (T : CaseTable) : Machine RStore RVal := ⟨litSpec, runSpec T, 
 
 `T<entry>;<entry>;…` with `entry = cp:lower:upper:flags`, `lower`/`upper` = `.`-separated code points of
 `char::to_lowercase` / `to_uppercase`, flags = alphabetic 1 | numeric 2 | whitespace 4 | lowercase 8 |
-uppercase 16. A character that is looked up but missing from the table maps to U+FFFD followed by
+uppercase 16 | cased 32 | case-ignorable 64 | 128 (always set: marks an entry that carries the two
+context bits; an entry without it is not decoded). The context bits are what `str::to_lowercase` sees
+of `char::is_cased` / `is_case_ignorable` (not public in std), observed through its public behaviour:
+cased := `(c + "Σ").to_lowercase()` ends in ς (c is Cased and not Case_Ignorable),
+case-ignorable := not cased and `("Α" + c + "Σ").to_lowercase()` ends in ς.
+A character that is looked up but missing from the table maps to U+FFFD followed by
 itself and has no class: a visible disagreement, never a silent default. -/
 
 structure Entry where
@@ -374,7 +389,9 @@ def decChars (w : String) : Option (List Char) :=
 def decEntry (w : String) : Option Entry :=
   match w.splitOn ":" with
   | [cp, lo, up, fl] => do
-    pure { cp := ← cp.toNat?, lower := ← decChars lo, upper := ← decChars up, flags := ← fl.toNat? }
+    let flags ← fl.toNat?
+    if (flags / 128) % 2 != 1 then none
+    else pure { cp := ← cp.toNat?, lower := ← decChars lo, upper := ← decChars up, flags := flags }
   | _ => none
 
 def tableOf (es : List Entry) : CaseTable :=
@@ -386,7 +403,7 @@ def tableOf (es : List Entry) : CaseTable :=
   { lower := fun c => match find c with | some e => e.lower | none => missing c,
     upper := fun c => match find c with | some e => e.upper | none => missing c,
     alphabetic := flag 1, numeric := flag 2, whitespace := flag 4, isLower := flag 8,
-    isUpper := flag 16 }
+    isUpper := flag 16, cased := flag 32, caseIgnorable := flag 64 }
 
 def decTable (w : String) : Option CaseTable :=
   if !w.startsWith "T" then none
